@@ -2359,19 +2359,20 @@ class Statements(Sequence, Immutable):
                     break
             else:
                 raise KeyError(f"Could not find symbol {symbol}")
-        g = self._create_dependency_graph()
         symbs = self[i].rhs_symbols
-        if i == 0 or not g:
-            # Special case for models with only one statement or no dependent statements
-            return symbs
-        for j, _ in nx.bfs_predecessors(g, i, sort_neighbors=lambda x: reversed(sorted(x))):
+        # NOTE: Walk backwards in statement order so that a symbol is only
+        # replaced by the definition that actually reaches its use. A symbol
+        # read before it is (re)defined remains a dependency.
+        for j in range(i - 1, -1, -1):
             statement = self[j]
             if isinstance(statement, Assignment):
-                symbs -= {statement.symbol}
+                if statement.symbol in symbs:
+                    symbs = (symbs - {statement.symbol}) | statement.rhs_symbols
             else:
                 assert isinstance(statement, CompartmentalSystem)
-                symbs -= set(statement.amounts)
-            symbs |= statement.rhs_symbols
+                amounts = set(statement.amounts)
+                if not symbs.isdisjoint(amounts):
+                    symbs = (symbs - amounts) | statement.rhs_symbols
         return symbs
 
     def remove_symbol_definitions(
